@@ -248,7 +248,7 @@ class Obligation:
     def query(self):
         if self.kind == 'forall':
             return self.assume + [ir.bnot(self.claim)]
-        if self.kind == 'exists':
+        if self.kind in ('exists', 'probe'):
             return self.assume + [self.claim]
         return self.assume
 
